@@ -204,7 +204,7 @@ theorem exec_inv {nt : Nat} (s : St) (op : Op) (h : MInv nt s) : MInv nt (exec s
         simp only []
         have h' : MInv nt { s with cbs := rest } := ⟨h.notary, h.neoC, h.cur, h.snap⟩
         exact h'.fin s.cur f.d1 f.d2 h.cur
-  | transfer t src dst amt caller recv data =>
+  | transfer t src dst amt caller dk data =>
     simp only [exec]
     split
     · exact h
@@ -234,7 +234,7 @@ theorem exec_inv {nt : Nat} (s : St) (op : Op) (h : MInv nt s) : MInv nt (exec s
           have e1 : (0 : Int) + (if t = Tok.gas ∧ dst = nt then amt else 0) - (if t = Tok.gas ∧ src = nt then amt else 0) =
               (if t = .gas ∧ dst = nt then amt else 0) := by simp [hsrc]
           rw [e1] at hl; exact hl
-        exact afterPosted_inv s t l src dst amt recv data d1 d2 h hl' ha
+        exact afterPosted_inv s t l src dst amt (recvOf s.env dst dk) data d1 d2 h hl' ha
   | vote acc pub caller =>
     simp only [exec]
     split
@@ -270,7 +270,7 @@ theorem exec_inv {nt : Nat} (s : St) (op : Op) (h : MInv nt s) : MInv nt (exec s
     split
     · exact h
     · exact h.done _ _ (h.cur.lockDeposit acc till _)
-  | withdraw src dst caller recv =>
+  | withdraw src dst caller =>
     simp only [exec]
     split
     · exact h
@@ -291,7 +291,7 @@ theorem exec_inv {nt : Nat} (s : St) (op : Op) (h : MInv nt s) : MInv nt (exec s
                 (if Tok.gas = Tok.gas ∧ s.env.notary = nt then amt else 0) =
                 (if Tok.gas = Tok.gas ∧ dst.getD src = nt then amt else 0) := by simp [h.notary]; omega
             rw [e1] at hl'; exact hl'
-          exact afterPosted_inv s .gas l' s.env.notary (dst.getD src) amt recv .other d1 d2 h hl'' ha
+          exact afterPosted_inv s .gas l' s.env.notary (dst.getD src) amt (recvOf s.env (dst.getD src) .null) .other d1 d2 h hl'' ha
   | setGpb gas caller =>
     simp only [exec]
     split
@@ -340,7 +340,9 @@ theorem step_inv {nt : Nat} (s : St) (op : Op) (h : MInv nt s) : MInv nt (step s
   unfold step
   split
   · split
-    · exact ⟨h.notary, h.neoC, h.cur, h.snap⟩
+    · split
+      · exact ⟨h.notary, h.neoC, h.cur, h.snap⟩
+      · exact h
     · exact ⟨h.notary, h.neoC, h.cur, h.snap⟩
     · exact h
   · split
